@@ -25,6 +25,7 @@ import (
 	"github.com/yandex/pandora/core"
 	"github.com/yandex/pandora/core/engine"
 	"github.com/yandex/pandora/lib/monitoring"
+	"github.com/yandex/pandora/lib/verifhook"
 	"go.uber.org/zap"
 )
 
@@ -120,11 +121,19 @@ func runReal(input string) string {
 	}
 	rec := prs[0].rec
 	var c *ctl
+	if m["fine"] == "1" {
+		// scheduling points inside Next / Left exist for the leaf profiles only (a composite holds its lock around them)
+		leaf := m["sched"] == "" || m["sched"] == "once" || m["sched"] == "const" || m["sched"] == "line" || strings.HasPrefix(m["sched"], "paced")
+		if !leaf || npools != 1 || m["ctl"] == "" {
+			return "res=noinstr why=fine-needs-one-pool-leaf-profile-ctl"
+		}
+	}
 	if spec := m["ctl"]; spec != "" && npools == 1 {
 		cap := prs[0].cap
 		c = &ctl{r: rec, wake: make(chan struct{}, 1), parked: map[int]chan struct{}{}, resting: map[int]bool{},
 			started: func() int { return int(metrics.InstanceStart.Get()) }, stop: make(chan struct{}),
-			wait: 300 * time.Microsecond, firstWait: 20 * time.Millisecond, last: -1}
+			wait: 300 * time.Microsecond, firstWait: 20 * time.Millisecond, last: -1,
+			fine: m["fine"] == "1", pending: map[int][]string{}}
 		parts := strings.Split(spec, ":")
 		systematic := func() {
 			// systematic modes: operations are instantaneous (once profile, no shot time), so a long patience costs
@@ -165,8 +174,20 @@ func runReal(input string) string {
 			}
 			c.rng = rand.New(rand.NewSource(seed))
 			c.style = style
+			if c.fine && (m["sched"] == "once" || m["sched"] == "") && atoi(m["shotus"]) == 0 {
+				// nothing sleeps: a long patience costs nothing and keeps "one instance runs at a time" true
+				c.wait = 400 * time.Millisecond
+				c.firstWait = time.Second
+				if m["start"] == "" || m["start"] == "once" {
+					c.first = cap
+				}
+			}
 		}
 		rec.ctl = c
+		if c.fine {
+			verifhook.Yield = rec.yield
+			defer func() { verifhook.Yield = nil }()
+		}
 		go c.loop()
 	}
 	eng := engine.New(zap.NewNop(), metrics, conf)
@@ -487,7 +508,11 @@ func main() {
 		workerMain()
 		return
 	}
-	if len(os.Args) > 2 && os.Args[1] == "-dfs" { // debugging aid: enumerate one configuration, print the paths
+	defer removeInstrumentedWorker()
+	if len(os.Args) > 2 && os.Args[1] == "-dfs" { // debugging aid: enumerate one configuration, print the paths  [-dfs <input> [<repo>]]
+		if len(os.Args) > 3 {
+			drv.RepoDir = os.Args[3]
+		}
 		ins, done := dfs(os.Args[2], 100000)
 		for _, in := range ins {
 			fmt.Println(in[strings.Index(in, "ctl="):], drv.KV(cache[in])["br"], drv.KV(cache[in])["partial"], drv.KV(cache[in])["log"])
